@@ -81,6 +81,9 @@ def decoder_rules(prog, chk, rule_prefix="R15"):
     chk.floor(rule_prefix + ".1", "successful exits without end pointer", nend, 4)
 
 
+ALSO_PORTABLE = True
+
+
 def run(ctx, chk):
     prog = ctx.prog()
     chk.configs.append("native -O0+mem2reg")
